@@ -1,6 +1,8 @@
 ----------------------------- MODULE MC_ArrayBuild -----------------------------
 EXTENDS ArrayBuild, Json, IOUtils
-Line == [m |-> "ArrayBuild", form |-> form, n |-> n, exit |-> exit, pos |-> pos, ending |-> Ending]
+Line == [m |-> "ArrayBuild", form |-> form, n |-> n, exit |-> exit, pos |-> pos, ending |-> Ending,
+         \* C15: the drop ledger of the by-value forms at this (final) state
+         pc |-> pc, pushed |-> pushed, din |-> led.din, dout |-> led.dout]
 EmitInv == Ending # "running" =>
              Serialize(ToJson(Line) \o "\n", IOEnv.OUT,
                        [format |-> "TXT", charset |-> "UTF-8", openOptions |-> <<"WRITE", "CREATE", "APPEND">>]).exitValue = 0
